@@ -849,6 +849,36 @@ impl<T: RequestHandler> ServerContext<T> {
     }
 }
 
+/// Hook for out-of-tree verification tooling (compiled only with `--cfg hickory_dns_verif`):
+/// drives the private `ServerContext::handle_request` (header gate, opcode gate, question parsing,
+/// access control, body parsing, dispatch to `handler`) for one raw message without any socket.
+/// `response_handle` receives whatever the server would send.
+#[cfg(hickory_dns_verif)]
+pub async fn verif_handle_request<T: RequestHandler>(
+    handler: T,
+    denied_networks: &[IpNet],
+    allowed_networks: &[IpNet],
+    message_bytes: Vec<u8>,
+    src_addr: SocketAddr,
+    protocol: Protocol,
+    response_handle: BufDnsStreamHandle,
+) {
+    let mut access = AccessControl::default();
+    access.insert_deny(denied_networks.iter().copied());
+    access.insert_allow(allowed_networks.iter().copied());
+    let cx = ServerContext {
+        handler,
+        access,
+        shutdown: CancellationToken::new(),
+    };
+    cx.handle_raw_request(
+        SerialMessage::new(message_bytes, src_addr),
+        protocol,
+        response_handle,
+    )
+    .await;
+}
+
 // method to return an error to the client
 async fn error_response_handler(
     protocol: Protocol,
